@@ -16,6 +16,7 @@ Pipeline per run:
 import json
 import os
 import shutil
+import threading
 import time
 
 import vf
@@ -72,20 +73,23 @@ ASSUMPTIONS = [
 ]
 
 TIERS = {
+    # *_gen runs are exhaustive TLC runs WITH the invariants that also print the rule sets / histories;
+    # *_mc runs (thorough) are larger exhaustive runs without printing.
     "quick": dict(
-        sem_mc=dict(MaxRules=2, SvcInts='{"", "write"}', NameCount=5, Fams=None),
-        sem_gen=[dict(MaxRules=2, SvcInts='{"", "deny", "write"}', NameCount=4, Fams=None)],
-        hist_mc=dict(MaxDepth=2, NC=(4, 4, 2)),
-        hist_gen=dict(MaxDepth=2, NC=(4, 3, 1)),
-        rnd=dict(n=60, length=10),
+        sem_gen=[dict(MaxRules=2, SvcInts='{"", "write"}', NameCount=3, Fams=None)],
+        hist_gen=[dict(MaxDepth=2, NC=(4, 3, 1), both_vias=False)],
+        sem_mc=None, hist_mc=None,
+        rnd=dict(n=32, length=8),
+        chunks={"gen:sem": 2, "gen:hist": 2, "random": 1},
     ),
     "thorough": dict(
-        sem_mc=dict(MaxRules=2, SvcInts='{"", "deny", "read", "write"}', NameCount=5, Fams=None),
         sem_gen=[dict(MaxRules=2, SvcInts='{"", "deny", "read", "write"}', NameCount=5, Fams=None),
                  dict(MaxRules=3, SvcInts='{"", "write"}', NameCount=3, Fams='{"key", "service", "node"}')],
-        hist_mc=dict(MaxDepth=3, NC=(5, 4, 2)),
-        hist_gen=dict(MaxDepth=3, NC=(4, 4, 1)),
-        rnd=dict(n=400, length=14),
+        hist_gen=[dict(MaxDepth=2, NC=(4, 4, 2), both_vias=True),
+                  dict(MaxDepth=3, NC=(3, 3, 1), both_vias=False)],
+        sem_mc=None, hist_mc=dict(MaxDepth=3, NC=(5, 4, 2)),
+        rnd=dict(n=300, length=12),
+        chunks={"gen:sem": 5, "gen:hist": 10, "random": 4},
     ),
 }
 
@@ -118,7 +122,7 @@ def _pn(i):
     return "p%d" % i
 
 
-def hist_to_behaviours(hists):
+def hist_to_behaviours(hists, both_vias=True):
     """TLC history [world, cmd...] -> h-acl behaviours (each history in both resolution paths)."""
     out = []
     for k, h in enumerate(hists):
@@ -137,7 +141,8 @@ def hist_to_behaviours(hists):
                 cmds.append({"t": "setpolicy", "p": _pn(c["p"]), "rules": c["rules"]})
         if not any(c["t"] == "resolve" for c in cmds):
             continue
-        for j, via in enumerate(("resolver", "compile")):
+        vias = ("resolver", "compile") if both_vias else (("resolver", "compile")[k % 2],)
+        for j, via in enumerate(vias):
             out.append({"world": {"env": json.loads(json.dumps(env)), "names": QNAMES, "dflt": ("deny", "allow")[(k + j) % 2],
                                   "fams": ["service", "key", "node"], "via": via,
                                   "cache": ("big", "noauthz")[(k // 2 + j) % 2]},
@@ -186,8 +191,42 @@ def judge(rows, rejects, source, verdict, pred_hits):
             verdict.add(sig, what, rp)
 
 
+_JVMS = threading.BoundedSemaphore(max(2, min(10, vf.NCPU - 4)))
+
+
 def validate(path, nevents):
-    return vf.tlc_validate("ACLTrace", "ACLTrace.cfg", path, nevents=nevents, timeout=3000, heap="12g")
+    with _JVMS:
+        return vf.tlc_validate("ACLTrace", "ACLTrace.cfg", path, nevents=nevents, timeout=3000, heap="6g")
+
+
+def par(thunks, workers):
+    """run thunks concurrently (each starts its own TLC JVM); results in order; first exception propagates"""
+    from concurrent.futures import ThreadPoolExecutor
+    with ThreadPoolExecutor(max_workers=workers) as ex:
+        futs = [ex.submit(t) for t in thunks]
+        return [f.result() for f in futs]
+
+
+def validate_chunked(path, nchunks, work):
+    """split a trace at history boundaries (world / decide events), validate the chunks in parallel JVMs and
+    return (rows, rejects with line numbers of the whole trace)"""
+    rows = vf.read_ndjson(path)
+    starts = [i for i, e in enumerate(rows) if e["cmd"]["t"] in ("world", "decide")]
+    if not rows or starts[0] != 0:
+        raise vf.Infra("trace %s does not start with a world/decide event" % path)
+    per = max(1, -(-len(starts) // nchunks))
+    cuts = [starts[i] for i in range(0, len(starts), per)] + [len(rows)]
+    # balance by events rather than by units when units are uneven
+    thunks = []
+    for k in range(len(cuts) - 1):
+        lo, hi = cuts[k], cuts[k + 1]
+        cp = "%s.chunk%d" % (path, k)
+        vf.write_ndjson(cp, rows[lo:hi])
+        thunks.append(lambda cp=cp, lo=lo, hi=hi: (lo, validate(cp, hi - lo)))
+    rejects = []
+    for lo, r in par(thunks, min(len(thunks), 8)):
+        rejects += [(lo + line, names) for line, names in r.rejects]
+    return rows, sorted(rejects)
 
 
 def run_h(binary, args):
@@ -222,6 +261,44 @@ def nontrivial_keys(rows):
     return keys
 
 
+def _is_prefix(p, n):
+    return len(p) <= len(n) and n[:len(p)] == p
+
+
+def exercised(rows, ex):
+    """vacuity counters: how often the antecedent of each clause / of NoCrossTalk was actually met"""
+    toks = pols = None
+    seen_pols = set()
+    for e in rows:
+        c = e["cmd"]
+        if c["t"] == "decide":
+            rules, names = c["rules"], c["names"]
+            named = [r for r in rules if r["k"] not in ("acl", "keyring", "operator", "mesh", "peering")]
+            if any(r["m"] == "exact" and r["n"] in names for r in named):
+                ex["ExactWins"] += 1
+            if any(r["m"] == "prefix" and q["m"] == "prefix" and r["k"] == q["k"] and r["n"] != q["n"] and _is_prefix(r["n"], q["n"])
+                   for r in named for q in named):
+                ex["LongestPrefixWins(nested prefixes)"] += 1
+            if any(r["lv"] == "deny" for r in named):
+                ex["DenyOverrides"] += 1
+            if any(not any(_is_prefix(r["n"], n) for r in named if r["m"] == "prefix") for n in names):
+                ex["DefaultDecides"] += 1
+            if any(r["k"] == q["k"] and r["n"] == q["n"] and r["m"] == q["m"] and r["lv"] != q["lv"] for r in named for q in named):
+                ex["same slot, different levels (merge)"] += 1
+            if e["res"]["n"] > 1:
+                ex["OrderIndependent(>1 realisation)"] += 1
+        elif c["t"] == "world":
+            toks, roles = c["env"]["tok"], c["env"]["roles"]
+            seen_pols = set()
+        elif c["t"] == "resolve":
+            t = toks[c["tok"]]
+            mine = set(t["pols"]) | {p for r in t["roles"] for p in roles.get(r, {"pols": []})["pols"]}
+            if mine & seen_pols:
+                ex["NoCrossTalk(shares a policy with an earlier resolution)"] += 1
+            seen_pols |= mine
+    return ex
+
+
 # ----------------------------------------------------------------------------- run
 
 def run(tier):
@@ -232,40 +309,65 @@ def run(tier):
     work = vf.new_scratch("verif-%s-" % PID)
     verdict = vf.Verdict(PID)
     cov = {"model_check": [], "generation": [], "random": []}
-    states = transitions = 0
     pred_hits = {}
     samples = []
     nontrivial = set()
     n_beh = n_events = n_dec = 0
     methods_seen = set()
+    import collections
+    exer = collections.Counter({k: 0 for k in ("ExactWins", "LongestPrefixWins(nested prefixes)", "DenyOverrides", "DefaultDecides",
+                                               "same slot, different levels (merge)", "OrderIndependent(>1 realisation)",
+                                               "NoCrossTalk(shares a policy with an earlier resolution)")})
+    thorough = tier == "thorough"
+    W = 4
+    SEM_INV = ["InvExactWins", "InvLongestPrefix", "InvDenyOverrides", "InvDefaultDecides", "InvMergeOrderFree", "InvVariantsAgree", "InvTotal"]
+    HIST_INV = ["NoCrossTalk", "InvCachesSound"]
     try:
-        # 1. exhaustive model checks
-        r = vf.tlc_mc("ACLMC", "mc.cfg", files={"mc.cfg": _sem_cfg("ACL_mc.cfg", T["sem_mc"])}, timeout=1500,
-                      workers=min(12, vf.NCPU), coverage=(tier == "thorough"))
-        states += r.distinct
-        transitions += r.generated
-        cov["model_check"].append({"cfg": "ACL_mc (sem)", "params": T["sem_mc"], "distinct": r.distinct, "generated": r.generated,
-                                   "invariants": ["InvExactWins", "InvLongestPrefix", "InvDenyOverrides", "InvDefaultDecides",
-                                                  "InvMergeOrderFree", "InvVariantsAgree", "InvTotal"]})
-        r = vf.tlc_mc("ACLMC", "mc.cfg", files={"mc.cfg": _hist_cfg("ACLHist_mc.cfg", T["hist_mc"])}, timeout=1500,
-                      workers=min(12, vf.NCPU), coverage=(tier == "thorough"))
-        states += r.distinct
-        transitions += r.generated
-        cov["model_check"].append({"cfg": "ACLHist_mc (hist)", "params": T["hist_mc"], "distinct": r.distinct, "generated": r.generated,
-                                   "invariants": ["NoCrossTalk", "InvCachesSound"]})
-        if tier == "thorough":
-            rb = vf.tlc("ACLMC", "bug.cfg", files={"bug.cfg": _hist_cfg("ACLHist_mc.cfg", dict(MaxDepth=2, NC=(4, 4, 2)), alias="TRUE")},
-                        workers=4, timeout=900)
-            if rb.violated not in ("NoCrossTalk", "InvCachesSound"):
-                raise vf.Infra("model drift: the merge-aliasing transcription (AliasBug=TRUE) no longer violates NoCrossTalk/CachesSound")
-            cov["model_check"].append({"cfg": "ACL_bug (AliasBug=TRUE, expected to fail)", "violated": rb.violated})
+        # 1 + 2. exhaustive model checks (invariants) that also print every rule set / history, concurrently
+        def mc(cfgname, text, **kw):
+            r = vf.tlc("ACLMC", cfgname, files={cfgname: text}, timeout=3000, workers=W, coverage=thorough, heap="8g", **kw)
+            if r.rc != 0 or r.distinct == 0:
+                raise vf.Infra("model check ACLMC/%s failed rc=%s violated=%s\n%s" % (cfgname, r.rc, r.violated, r.out[-3000:]))
+            return r
+        jobs = []
+        for i, gp in enumerate(T["sem_gen"]):
+            jobs.append(("sem_gen", gp, lambda gp=gp, i=i: mc("gen_sem%d.cfg" % i, _sem_cfg("ACL_gen.cfg", gp))))
+        for i, gp in enumerate(T["hist_gen"]):
+            jobs.append(("hist_gen", gp, lambda gp=gp, i=i: mc("gen_hist%d.cfg" % i, _hist_cfg("ACLHist_gen.cfg", gp))))
+        if T["sem_mc"]:
+            jobs.append(("sem_mc", T["sem_mc"], lambda: mc("mc_sem.cfg", _sem_cfg("ACL_mc.cfg", T["sem_mc"]))))
+        if T["hist_mc"]:
+            jobs.append(("hist_mc", T["hist_mc"], lambda: mc("mc_hist.cfg", _hist_cfg("ACLHist_mc.cfg", T["hist_mc"]))))
+        if thorough:
+            jobs.append(("bug", None, lambda: vf.tlc("ACLMC", "bug.cfg", files={"bug.cfg": _hist_cfg("ACLHist_mc.cfg", dict(MaxDepth=2, NC=(4, 4, 2)), alias="TRUE")},
+                                                     workers=2, timeout=1200)))
+        res = par([j[2] for j in jobs], len(jobs))
+        states = transitions = 0
+        g_sems, g_hists = [], []
+        for (kind, params, _), r in zip(jobs, res):
+            if kind == "bug":
+                if r.violated not in ("NoCrossTalk", "InvCachesSound"):
+                    raise vf.Infra("model drift: the merge-aliasing transcription (AliasBug=TRUE) no longer violates "
+                                   "NoCrossTalk/InvCachesSound (violated=%s)" % r.violated)
+                cov["model_check"].append({"cfg": "ACLHist_mc with AliasBug=TRUE (expected to fail)", "violated": r.violated})
+                continue
+            states += r.distinct
+            transitions += r.generated
+            zero = [z for z in r.coverage_zero if z not in ("SemInit", "SemNext", "HInit", "HNext")]
+            cov["model_check"].append({"run": kind, "params": {k: v for k, v in params.items()}, "distinct": r.distinct, "generated": r.generated,
+                                       "invariants": SEM_INV if kind.startswith("sem") else HIST_INV, "coverage_zero": zero[:20]})
+            if kind == "sem_gen":
+                g_sems.append((params, r))
+            if kind == "hist_gen":
+                g_hists.append((params, r))
+            if kind.endswith("_gen") and not r.traces:
+                raise vf.Infra("generator %s printed nothing" % kind)
 
         traces = []
         # 2a. every distinct rule set of the bounded universe -> real policies
         seen_sets = set()
         sets = []
-        for gp in T["sem_gen"]:
-            g = vf.tlc_gen("ACLMC", "gen.cfg", files={"gen.cfg": _sem_cfg("ACL_gen.cfg", gp)}, timeout=1500, workers=min(8, vf.NCPU))
+        for gp, g in g_sems:
             fresh = 0
             for t in g.traces:
                 key = json.dumps(sorted(json.dumps(x, sort_keys=True) for x in t["rules"]))
@@ -281,11 +383,13 @@ def run(tier):
         meta = run_h(binary, ["decide", "-in", inp, "-out", tp, "-seed", str(seed)])
         traces.append(("gen:sem", tp, meta))
         # 2b. resolution histories through shared caches
-        g = vf.tlc_gen("ACLMC", "gen.cfg", files={"gen.cfg": _hist_cfg("ACLHist_gen.cfg", T["hist_gen"])}, timeout=1500)
-        hists = vf.dedup_behaviours(g.traces)
-        behs = hist_to_behaviours(hists)
-        cov["generation"].append({"cfg": "ACLHist_gen (hist)", "params": T["hist_gen"], "transitions": len(g.traces),
-                                  "histories": len(hists), "behaviours_replayed": len(behs)})
+        behs = []
+        for gp, g in g_hists:
+            hists = vf.dedup_behaviours(g.traces)
+            bs = hist_to_behaviours(hists, gp["both_vias"])
+            behs += bs
+            cov["generation"].append({"cfg": "ACLHist_gen (hist)", "params": gp, "transitions": len(g.traces),
+                                      "histories": len(hists), "behaviours_replayed": len(bs)})
         inp = os.path.join(work, "behs.json")
         json.dump(behs, open(inp, "w"))
         tp = os.path.join(work, "hist.ndjson")
@@ -297,31 +401,37 @@ def run(tier):
         traces.append(("random", tp, meta))
         cov["random"].append(dict(T["rnd"], seed=seed, events=meta["events"]))
 
-        # 4. TLC judges
-        for name, tp, meta in traces:
-            r = validate(tp, meta["events"])
-            rows = vf.read_ndjson(tp)
+        # 4. TLC judges (chunks of every trace in parallel JVMs)
+        judged = par([lambda tp=tp, name=name: validate_chunked(tp, T["chunks"][name], work) for name, tp, _ in traces], len(traces))
+        for (name, tp, meta), (rows, rejects) in zip(traces, judged):
+            if len(rows) != meta["events"]:
+                raise vf.Infra("trace %s has %d rows, harness reported %d" % (name, len(rows), meta["events"]))
             n_beh += meta["behaviours"]
             n_events += meta["events"]
             n_dec += meta["decisions"]
-            judge(rows, r.rejects, name, verdict, pred_hits)
+            judge(rows, rejects, name, verdict, pred_hits)
             nontrivial |= nontrivial_keys(rows)
+            exercised(rows, exer)
             for e in rows:
                 if "res" in e:
                     for tab in (e["res"].get("tables") or [e["res"]["shared"]]):
                         methods_seen |= set(tab)
-            rej_lines = {ln for ln, _ in r.rejects}
+            rej_lines = {ln for ln, _ in rejects}
+            taken = 0
             for k, e in enumerate(rows):
-                if "res" in e and len(samples) < 6 and k % 97 == 3:
+                if "res" in e and taken < 2 and k % 97 == 3:
+                    taken += 1
                     c = e["cmd"]
-                    res = e["res"]
-                    tab = (res.get("tables") or [res.get("shared")])[0]
+                    tab = (e["res"].get("tables") or [e["res"].get("shared")])[0]
                     samples.append({"source": name, "cmd": {x: c[x] for x in c if x not in ("names",)},
                                     "impl_table_excerpt": {m: tab[m] for m in sorted(tab)[:4]},
                                     "accepted_by_tlc": (k + 1) not in rej_lines})
         missing = ALL_METHODS - methods_seen
         if missing:
             raise vf.Infra("vacuity: authorizer methods never recorded: %s" % sorted(missing))
+        vac = [k for k, v in exer.items() if v == 0]
+        if vac:
+            raise vf.Infra("vacuity: antecedent never exercised on the implementation: %s" % vac)
         n_new = verdict.finish()
         coverage = {
             "states": states, "transitions": transitions,
@@ -339,6 +449,7 @@ def run(tier):
                     "link, commands executed before it) resolutions",
             "model_check": cov["model_check"], "generation": cov["generation"], "random": cov["random"],
             "methods_recorded": len(methods_seen),
+            "antecedents_exercised": dict(exer),
             "predicate_doc": PRED_DOC,
             "rejected_steps_by_signature": pred_hits,
             "known_findings_matched": verdict.known_hit,
